@@ -1,6 +1,7 @@
 package main
 
 import (
+	"os"
 	"fmt"
 	"go/types"
 	"strings"
@@ -283,21 +284,44 @@ func (e *Engine) applySpecUF(fr *Frame, st *State, fn *ssa.Function, args []Valu
 	}
 	var ts []*Term
 	readsBytes := false
+	var regions []*Term
 	for i, a := range args {
 		t := fn.Signature.Params().At(i).Type()
-		ts = append(ts, e.flat(a, t)...)
+		fl := e.flat(a, t)
+		ts = append(ts, fl...)
 		switch t.Underlying().(type) {
 		case *types.Slice:
 			readsBytes = true
+			regions = append(regions, fl[0])
 		case *types.Basic:
 			if isStringType(t) {
 				readsBytes = true
+				regions = append(regions, fl[0])
 			}
 		}
 	}
 	name := fn.Name()
 	if readsBytes {
-		name = fmt.Sprintf("%s.m%d", name, e.mem(st, byteMemName, elemKS, 8).id)
+		// the version of the byte memory as far as the argument regions are concerned: writes
+		// to regions that cannot be one of them do not change the function's value
+		m := e.mem(st, byteMemName, elemKS, 8)
+		id := -1
+		for _, r := range regions {
+			if em := effectiveMem(m, r); em != nil && em.id > id {
+				id = em.id
+			}
+		}
+		if id < 0 {
+			id = m.id
+		}
+		if os.Getenv("GOVC_DEBUG_MEM") != "" {
+			fmt.Fprintf(os.Stderr, "specUF %s: mem %d -> %d;", fn.Name(), m.id, id)
+			for x, n := m, 0; x != nil && n < 12; x, n = x.prev, n+1 {
+				fmt.Fprintf(os.Stderr, " [%d k=%d r=%v]", x.id, x.kind, x.region)
+			}
+			fmt.Fprintln(os.Stderr)
+		}
+		name = fmt.Sprintf("%s.m%d", name, id)
 	}
 	rs := leavesOf(res.At(0).Type())[0].sort
 	app := UF(name, rs, ts...)
